@@ -97,14 +97,15 @@ func fieldsOf(t *Ty) []fld {
 // ---------------------------------------------------------------------------
 
 type DocGen struct {
-	big     bool // "big data" document: thousands of elements in nums, hundreds in recs
-	r       *Rng
-	tag     string
-	poison  int // probability (per 100) that a field has a wrong type (aborted calls, F3)
-	spare   int // probability (per 100) that an array has spare capacity (F5)
-	nextDef int
-	shared  []string // encodings of shareable rec sub-trees (def ids)
-	arrDefs []arrDef // arrays that later windows may alias
+	big        bool // "big data" document: thousands of elements in nums, hundreds in recs
+	latePoison bool // one wrong-typed element near the end of each long array (a call aborted after a lot of progress)
+	r          *Rng
+	tag        string
+	poison     int // probability (per 100) that a field has a wrong type (aborted calls, F3)
+	spare      int // probability (per 100) that an array has spare capacity (F5)
+	nextDef    int
+	shared     []string // encodings of shareable rec sub-trees (def ids)
+	arrDefs    []arrDef // arrays that later windows may alias
 }
 
 type arrDef struct{ id, n int }
@@ -274,7 +275,19 @@ func (g *DocGen) val(t *Ty, depth int) string {
 		if depth <= 1 && t.E.K == 'n' && g.r.P(1, 400) {
 			n = 4096 + g.r.Intn(2000) // beyond "large input" thresholds of parallel or chunked code paths
 		}
-		return g.arr(n, func(int) string { return g.val(t.E, depth+1) })
+		bad := -1
+		if g.big && g.latePoison && depth <= 1 && n > 60 {
+			bad = n - 1 - g.r.Intn(5)
+		}
+		return g.arr(n, func(i int) string {
+			if i == bad {
+				if t.E.K == 'r' {
+					return `{"o":["id","oops","name",{"n":"f64:1"},"grp",null]}`
+				}
+				return pick(g.r, []string{`"oops"`, "null", "true"})
+			}
+			return g.val(t.E, depth+1)
+		})
 	case 'o':
 		mx := 5
 		if g.r.P(1, 8) {
@@ -340,6 +353,7 @@ func (g *DocGen) val(t *Ty, depth int) string {
 // implementations switch strategy (pooled buffers, chunking, parallelism).
 func GenBigDoc(r *Rng, tag string) string {
 	g := &DocGen{r: r, tag: tag, poison: 0, spare: 20, big: true}
+	g.latePoison = r.P(1, 3)
 	return g.val(tDoc, 0)
 }
 
@@ -368,6 +382,9 @@ func GenBigExpr(r *Rng) *Expr {
 		proj(fn("sort_by", recs, ref(field("id"))), field("name")),
 		proj(fn("sort_by", recs, ref(field("name"))), field("id")),
 		fn("max_by", recs, ref(field("id"))),
+		fn("sort_by", recs, ref(field("id"))),
+		fn("sort_by", nums, ref(cur)),
+		proj(fn("sort_by", recs, ref(mk(KSub, field("pt"), field("y")))), field("id")),
 		proj(recs, &Expr{K: KHash, Keys: []string{"a", "b"}, C: []*Expr{field("id"), field("name")}}),
 		fn("group_by", recs, ref(field("grp"))),
 		&Expr{K: KFlat, C: []*Expr{&Expr{K: KFlat, C: []*Expr{recs, field("vals")}}, nil}},
@@ -1112,6 +1129,31 @@ func GenExpr(r *Rng, b Bias) *Expr {
 				l.C = append(l.C, g.gen(tAny, tDoc, 1))
 			}
 			e = l
+		}
+	case 3:
+		if r.P(1, 3) {
+			// two readers of the same array, one of which re-orders a copy of it
+			x := pick(r, []*Expr{field("nums"), field("strs"), mk(KSub, field("recs"), nil)})
+			if x.K == KSub {
+				x = field("nums")
+			}
+			view := pick(r, []*Expr{
+				{K: KProj, C: []*Expr{x.clone(), nil}},
+				{K: KSlice, C: []*Expr{x.clone()}, N: []int{0, 9, 1}, F: []bool{r.P(1, 2), true, false}},
+				x.clone(),
+			})
+			sorted := fn(pick(r, []string{"sort", "reverse"}), view)
+			first := &Expr{K: KIndex, C: []*Expr{x.clone()}, N: []int{0}}
+			switch r.Intn(3) {
+			case 0:
+				e = &Expr{K: KHash, Keys: []string{"first", "ranked"}, C: []*Expr{first, sorted}}
+			case 1:
+				e = &Expr{K: KHash, Keys: []string{"ranked", "all", "first"}, C: []*Expr{sorted, x.clone(), first}}
+			default:
+				e = &Expr{K: KLet, Keys: []string{"s", "f"}, C: []*Expr{sorted, first, &Expr{K: KList, C: []*Expr{{K: KVar, S: "f"}, {K: KVar, S: "s"}}}}}
+			}
+		} else {
+			e = g.gen(tAny, tDoc, 0)
 		}
 	case 2:
 		e = fn("group_by", g.gen(tA(tRec), tDoc, 1), ref(field("grp")))
